@@ -10,7 +10,7 @@ from common import *
 import gen, pipeline, model, findings as F, oracle
 from props import base
 
-PROPS_MODULES = ["ShexerModel.Props.C03", "ShexerModel.Props.C03opt"]
+PROPS_MODULES = ["ShexerModel.Props.C03", "ShexerModel.Props.C03opt", "ShexerModel.Props.C03each"]
 DEPS = ["relax_cardinality", "generalize_cardinality"]
 replay = base.replay
 
@@ -50,10 +50,30 @@ def matches(G_, v, t, prop, cfg):
     return term_dt(v) == t
 
 
-def conformance_errors(triples, cfg, parsed):
-    G_ = G(triples, cfg)
-    lm = oracle.classes_for_labels(triples, cfg)
+def distribute(vals, tcs, m):
+    """ShEx EachOf proper (mirror of Spec.distribute): can every value be given to ONE constraint it matches so that every constraint
+    receives a number of values in its interval?"""
+    ivs = [card_interval(st['card']) for st in tcs]
+    options = sorted(([i for i, st in enumerate(tcs) if m(st, v)] for v in vals), key=len)
+
+    def go(k, counts):
+        if k == len(options):
+            return all(c >= lo and (hi is None or c <= hi) for c, (lo, hi) in zip(counts, ivs))
+        for i in options[k]:
+            if ivs[i][1] is None or counts[i] < ivs[i][1]:
+                counts[i] += 1
+                if go(k + 1, counts):
+                    return True
+                counts[i] -= 1
+        return False
+    return go(0, [0] * len(tcs))
+
+
+def conformance_errors(triples, cfg, parsed, G_=None, lm=None):
+    G_ = G_ or G(triples, cfg)
+    lm = lm or oracle.classes_for_labels(triples, cfg)
     errs = []
+    shex_nc = conformance_errors.shex_nc = set()
     for sh in parsed['shapes']:
         cl = lm.get(sh['label'])
         if not cl or len(cl) != 1:
@@ -70,12 +90,21 @@ def conformance_errors(triples, cfg, parsed):
                     m = [st for st in tcs if any(matches(G_, v, t, p, cfg) for t in st['types'])]
                     if len(m) == 0:
                         errs.append({'kind': 'value-unmatched', 'inv': inv, 'prop': p, 'value': list(v), 'node': n, 'class': cls})
+                bad = False
                 for st in tcs:
                     k = sum(1 for v in vals if any(matches(G_, v, t, p, cfg) for t in st['types']))
                     lo, hi = card_interval(st['card'])
                     if k < lo or (hi is not None and k > hi):
+                        bad = True
                         errs.append({'kind': 'cardinality', 'inv': inv, 'prop': p, 'types': st['types'], 'card': st['card'], 'count': k,
                                      'node': n, 'class': cls})
+                ok = distribute(vals, tcs, lambda st, v: any(matches(G_, v, t, p, cfg) for t in st['types']))
+                if not ok:
+                    shex_nc.add((cls, n))
+                    if not bad and all(any(matches(G_, v, t, p, cfg) for st in tcs for t in st['types']) for v in vals):
+                        # every count is in its interval taken alone, yet the values cannot be shared out (a constraint listed twice, overlapping constraints)
+                        errs.append({'kind': 'distribution', 'inv': inv, 'prop': p, 'constraints': [(st['types'], st['card']) for st in tcs],
+                                     'values': len(vals), 'node': n, 'class': cls})
     return errs
 
 
@@ -99,8 +128,49 @@ def lean_nonconforming(cases, ir):
     res = model.run_driver(lines) if lines else {}
     out = {}
     for i in range(len(cases)):
-        out[i] = set((ln.split("\t")[1], ln.split("\t")[2]) for ln in res.get("c%d" % i, []) if ln.startswith("NC\t"))
+        out[i] = (set((ln.split("\t")[1], ln.split("\t")[2]) for ln in res.get("c%d" % i, []) if ln.startswith("NC\t")),
+                  set((ln.split("\t")[1], ln.split("\t")[2]) for ln in res.get("c%d" % i, []) if ln.startswith("NX\t")))
     return out
+
+
+def dangling_entries_family(ctx, rng, n, kf, stats, viol, reproduced):
+    """every class selected by a shape-map entry `{FOCUS a <C>}@<label of C>` plus an entry whose node has no triple at all: its shape
+    ends empty, is removed, and every remaining shape goes through the pruning of references to removed shapes
+    (ClassShexer._clean_empty_shapes -> strategy.remove_statements_to_gone_shapes) in both directions; the instances must still conform"""
+    import impl
+    from shexer import consts as C
+    for i in range(n):
+        ren = lambda t: ('I', EX + 'bn_' + t[1][2:]) if t[0] == 'B' else t     # shape-map selectors name IRIs
+        g = [(ren(s_), p_, ren(o_)) for s_, p_, o_ in gen.gen_schema_graph(rng)]
+        classes = gen.classes_of(g)
+        cfg = gen.default_cfg()
+        cfg.update(all_compliant=True, keep_less_specific=True, allow_opt=rng.random() < 0.5, disable_exact=rng.random() < 0.5,
+                   discard_useless=rng.random() < 0.5, inverse=rng.random() < 0.7, report='mixed', remove_empty=True, target_mode='all')
+        entries = ["{FOCUS <%s> <%s>}@<%s>" % (RDF_TYPE, c, oracle.shape_label(c, cfg['shapes_ns'])) for c in classes]
+        ghosts = rng.randint(0, 2)
+        for k in range(ghosts):
+            entries.insert(rng.randint(0, len(entries)), "<%sghost%d>@<%sGhost%d>" % (EX, k, cfg['shapes_ns'], k))
+        text = "\n".join(entries) + "\n"
+        r = impl.run_shapes(g, cfg, all_classes_mode=False, shape_map_raw=text, shape_map_format=C.FIXED_SHAPE_MAP)
+        stats["dangling_entry_cases"] += 1
+        stats["dangling_entries"] += ghosts
+        stats["dangling_with_inverse"] += bool(ghosts and cfg['inverse'])
+        case = dict(pipeline.case_json(g, cfg), shape_map=text)
+        if r[0] != 'ok':
+            viol.append({"what": "implementation gave no result with a shape map naming a node without triples", "outcome": list(r[:3]), **case})
+            continue
+        labels = [sh['label'] for sh in r[1]['shapes']]
+        if len(set(labels)) != len(labels) or any(('Ghost%d' % k) in l for l in labels for k in range(ghosts)):
+            viol.append({"what": "empty shape kept / shape repeated although remove_empty_shapes is on", "labels": labels, "shexc": r[2], **case})
+            continue
+        for e in conformance_errors(g, cfg, r[1]):
+            obs = {"kind": "conformance", "error": e, "triples": g, "cfg": cfg, "parsed": r[1], "strict": True}
+            fid = F.match(kf, obs)
+            if fid:
+                reproduced.add(fid)
+            else:
+                viol.append({"what": "shape map with a dangling entry: a node used to extract a shape does not conform to it: " + e['kind'],
+                             "error": e, "strict_domain": True, "shexc": r[2], **case})
 
 
 def run(ctx):
@@ -137,7 +207,8 @@ def run(ctx):
         domain += [None, None]
     ir, dis = base.correspondence(ctx, cases)
     viol, reproduced = [], set()
-    stats = {"strict_domain": 0, "general": 0, "instance_shape_pairs": 0, "relaxed_opt": 0, "relaxed_star": 0, "errors_outside_strict_domain": 0}
+    stats = {"strict_domain": 0, "general": 0, "instance_shape_pairs": 0, "relaxed_opt": 0, "relaxed_star": 0, "errors_outside_strict_domain": 0,
+             "shex_distribution_differs_from_independent": 0}
     nontriv = 0
     lean_nc = lean_nonconforming(cases, [r if d is not None else None for r, d in zip(ir, domain)]) if ctx.driver_ok else None
     for ci, ((g, cfg), r, strict) in enumerate(zip(cases, ir, domain)):
@@ -149,11 +220,14 @@ def run(ctx):
         stats["strict_domain" if strict else "general"] += 1
         errs = conformance_errors(g, cfg, r[1])
         if lean_nc is not None:
-            py_nc = set((e['class'], e['node']) for e in errs)
-            if py_nc != lean_nc[ci]:
-                dis.append({"what": "Lean ShEx semantics (Spec/ShExSem.lean) vs harness validator on the implementation's shapes",
-                            "only_python": sorted(py_nc - lean_nc[ci])[:5], "only_lean": sorted(lean_nc[ci] - py_nc)[:5],
-                            "shexc": r[2], **pipeline.case_json(g, cfg)})
+            py_nc = set((e['class'], e['node']) for e in errs if e['kind'] != 'distribution')
+            py_nx = set(conformance_errors.shex_nc)
+            for what, a, b in (("independent reading, Spec/ShExSem.lean", py_nc, lean_nc[ci][0]), ("EachOf distribution, Spec/ShExEachOf.lean", py_nx, lean_nc[ci][1])):
+                if a != b:
+                    dis.append({"what": "Lean ShEx semantics (%s) vs harness validator on the implementation's shapes" % what,
+                                "only_python": sorted(a - b)[:5], "only_lean": sorted(b - a)[:5],
+                                "shexc": r[2], **pipeline.case_json(g, cfg)})
+            stats["shex_distribution_differs_from_independent"] += py_nc != py_nx
         stats["instance_shape_pairs"] += sum(sh['n'] or 0 for sh in r[1]['shapes'])
         stats["relaxed_opt"] += sum(1 for sh in r[1]['shapes'] for st in sh['stmts'] if st['card'] == '?')
         stats["relaxed_star"] += sum(1 for sh in r[1]['shapes'] for st in sh['stmts'] if st['card'] == '*')
@@ -174,6 +248,8 @@ def run(ctx):
             b = [(sh['label'], [(st['inv'], st['prop'], tuple(st['types']), st['card']) for st in sh['stmts']]) for sh in r2[1]['shapes']]
             if a != b or any(st['card'] in '?*' for sh in r1[1]['shapes'] for st in sh['stmts']):
                 viol.append({"what": "with the mode off a cardinality was rewritten (or depends on allow_opt_cardinality)", **pipeline.case_json(g, c1)})
+    stats.update(dangling_entry_cases=0, dangling_entries=0, dangling_with_inverse=0)
+    dangling_entries_family(ctx, random.Random(ctx.seed * 7919 + 33), 120 if ctx.tier == "quick" else 2500, kf, stats, viol, reproduced)
     # shape-map targets: the family of C10 (selection, shapes, exact figures), with inverse paths and removal of empty shapes as generated
     v3, d3, st3 = base.shape_map_cases(ctx, 40 if ctx.tier == "quick" else 500, "conformance presupposes the right instances and figures")
     viol += v3
